@@ -18,7 +18,9 @@ logging.disable(logging.CRITICAL)
 warnings.simplefilter("ignore")
 LEVEL_NOTE = "metamorphic pairs executed on the real code; maps x->(x+1)/2, x^2, 1-(1-x)^2 are exact and strictly increasing on the dyadic grid used; power-of-two weight factors"
 
-MAPS = {"affine": lambda x: (x + 1) / 2, "square": lambda x: x * x, "concave": lambda x: 1 - (1 - x) * (1 - x)}
+MAPS = {"affine": lambda x: (x + 1) / 2, "square": lambda x: x * x, "concave": lambda x: 1 - (1 - x) * (1 - x),
+        # exact power-of-two rescalings: still strictly increasing, scores stay distinct but become tiny / close together
+        "tiny": lambda x: x * 2.0 ** -30, "near-one": lambda x: 1 - (1 - x) * 2.0 ** -20}
 
 
 def val(f):
@@ -72,6 +74,15 @@ def cases(rng, big):
     scd = torch.tensor([rng.sample(range(0, 64), C) for _ in range(m)], dtype=torch.float64) / 64
     yield f"monotone[{mname}]:topk_accuracy", lambda: same(val(lambda: F.multiclass_accuracy(scd, tg, num_classes=C, k=min(k, C), average="micro")),
                                                          val(lambda: F.multiclass_accuracy(g(scd), tg, num_classes=C, k=min(k, C), average="micro")))
+    # top-k with TIED rows: correctness of a sample must not depend on the target's column position
+    if C > 2:
+        perm0 = list(range(C))
+        rng.shuffle(perm0)
+        p0 = torch.tensor(perm0)
+        inv0 = torch.argsort(p0)
+        kk2 = rng.choice([2, C - 1])
+        yield "relabel-ties:topk_accuracy", lambda: same(val(lambda: F.multiclass_accuracy(sc, tg, num_classes=C, k=kk2, average="micro")),
+                                                         val(lambda: F.multiclass_accuracy(sc[:, inv0], p0[tg], num_classes=C, k=kk2, average="micro")))
     rn = min(n, 150)
     rs = torch.tensor(rng.sample(range(1, 256), rn), dtype=torch.float64) / 256
     ry = torch.tensor([rng.randint(0, 1) for _ in range(rn)])
